@@ -269,7 +269,12 @@ fn value_at_location_of_correct_type(
             if !accepts_list {
                 unsupported_type(diagnostics, arg_value, ty)
             } else {
-                let item_type = ty.same_location(ty.item_type().clone());
+                let item_type = if ty.is_list() {
+                    ty.same_location(ty.item_type().clone())
+                } else {
+                    // A list given for a custom scalar: any item is valid, including `null`
+                    ty.same_location(ast::Type::Named(ty.inner_named_type().clone()))
+                };
                 if type_definition.is_input_type() {
                     for v in li {
                         value_at_location_of_correct_type(
